@@ -166,6 +166,9 @@ class SourceModel:
         return out
 
     def mro(self, qual: str) -> list[str]:
+        cache = self.__dict__.setdefault('_mro_cache', {})
+        if qual in cache:
+            return cache[qual]
         out, todo = [], [qual]
         while todo:
             q = todo.pop(0)
@@ -173,6 +176,7 @@ class SourceModel:
                 continue
             out.append(q)
             todo.extend(self.bases(q))
+        cache[qual] = out
         return out
 
     def subclasses(self, qual: str) -> list[str]:
@@ -186,6 +190,13 @@ class SourceModel:
 
     def find_method(self, cls_qual: str, name: str) -> str | None:
         """Qualified function name of method `name` looked up through the MRO."""
+        fcache = self.__dict__.setdefault('_find_method_cache', {})
+        if (cls_qual, name) in fcache:
+            return fcache[(cls_qual, name)]
+        fcache[(cls_qual, name)] = r = self._find_method(cls_qual, name)
+        return r
+
+    def _find_method(self, cls_qual: str, name: str) -> str | None:
         for c in self.mro(cls_qual):
             mn, _, cn = c.partition('.')
             if f'{cn}.{name}' in self.mods[mn].functions:
